@@ -1,4 +1,4 @@
-"""C10 -- concurrent_hash_map: segment / mask / parent arithmetic of lazy rehashing."""
+"""C10 -- concurrent_hash_map: segment / mask / parent arithmetic, erase, lookup (find / insert), lazy rehashing and growth under contract."""
 import os
 import sys
 import re
@@ -13,6 +13,244 @@ from prove import Job
 
 HM = 'include/oneapi/tbb/concurrent_hash_map.h'
 TY = ['size_type', 'segment_index_type', 'hashcode_type', 'size_t']
+
+
+def raii_scope(rw, t, var, exits, what):
+    """RAII: bucket_accessor `var` is destroyed at every exit of its scope: `exits` lists (regex, replacement) for the jumps that leave the scope
+    (each replacement calls BA_dtor first); the destructor call is also placed in front of the scope's closing brace."""
+    m = re.search(r'struct bucket_accessor %s;' % var, t)
+    if not m:
+        raise ExtractionBreak('%s: bucket_accessor declaration not found' % what)
+    mk = cxx2c.mask(t)
+    depth, i = 0, m.start()
+    while i >= 0:
+        if mk[i] == '}':
+            depth += 1
+        elif mk[i] == '{':
+            if depth == 0:
+                break
+            depth -= 1
+        i -= 1
+    if i < 0:
+        raise ExtractionBreak('%s: bucket_accessor outside a block' % what)
+    j = cxx2c.match_close(mk, i)
+    body = t[m.end():j]
+    n = 0
+    for pat, rep in exits:
+        body, k = re.subn(pat, rep, body)
+        n += k
+    rw.fired['RAII scope exit -> explicit destructor call'] = rw.fired.get('RAII scope exit -> explicit destructor call', 0) + n + 1
+    return t[:m.end()] + body + 'BA_dtor(&%s); ' % var + t[j:]
+
+
+def slice_check_mask_race(rw, sliced):
+    s = slice_block(HM, r'inline bool check_mask_race\( const hashcode_type h, hashcode_type &m \) const')
+    sliced.append('%s:%d hash_map_base::check_mask_race' % (HM, s.line))
+    t = rw.sub(s.text, r'inline bool check_mask_race\( const hashcode_type h, hashcode_type &m \) const', 'static bool check_mask_race(struct chm* self, const hashcode_type h, hashcode_type *m)', 1, 1, name='sig (ref-param -> pointer)')
+    t = rw.sub(t, r'm_old = m;', 'm_old = *m;', 1, 1, name='ref-param')
+    t = rw.sub(t, r'\(h, m_old, m = m_now\)', '(h, m_old, *m = m_now)', 1, 1, name='ref-param')
+    t = rw.sub(t, r'\bcheck_rehashing_collision\(', 'STUB_check_rehashing_collision(self, ', 1, 1, name='callee stub (proved in job rehash.collision)')
+    t = rw.atomics(t, ['my_mask'], 1)
+    t = rw.sub(t, r'(?<![\w.>])my_mask\b', 'self->my_mask', 1, name='field')
+    return t
+
+
+LOOKUP_SIG = r'bool lookup\( const K &key, const T \*t, const_accessor \*result, bool write, AllocateNodeType allocate_node, node \*tmp_n  = nullptr\)'
+
+
+def extract_lookup(ctx, sliced, fired):
+    """lookup<OpInsert>: the control flow over one bucket under its rw lock (find / count / insert / emplace)"""
+    rw = Rewriter('lookup')
+    out = [slice_check_mask_race(rw, sliced)]
+    s = slice_block(HM, LOOKUP_SIG)
+    sliced.append('%s:%d concurrent_hash_map::lookup<OpInsert>' % (HM, s.line))
+    t = rw.sub(s.text, LOOKUP_SIG, 'static bool lookup(struct chm* self, const bool OpInsert, key_type key, const mapped_type *t, struct const_accessor *result, bool write, node *tmp_n)', 1, 1,
+               name='sig + template<bool OpInsert> -> parameter, bind-template(K), allocate_node -> stub')
+    t = rw.sub(t, r'my_hash_compare\.hash\( key \)', 'STUB_hash(key)', 1, 1, name='callee stub (user hash)')
+    t = rw.atomics(t, ['my_mask'], 1, obj=r'this->')
+    t = rw.sub(t, r'this->my_mask', 'self->my_mask', 1, name='field')
+    t = rw.sub(t, r'bucket_accessor b\( this, ([^;]*?) \);', r'struct bucket_accessor b; BA_ctor(&b, self, \1, false);', 1, 1, name='RAII ctor (default writer=false)')
+    t = rw.sub(t, r'\bsearch_bucket\(\s*key, b\(\)\s*\)', 'STUB_search_bucket(self, key, BA_bucket(&b))', 1, name='callee stub (search_bucket: contract proved in job search.bucket)')
+    t = rw.sub(t, r'allocate_node_helper\(key, t, allocate_node, std::integral_constant<bool, OpInsert>\{\}\)', 'STUB_allocate_node(self, key, t)', 0, name='callee stub (allocator)')
+    t = rw.sub(t, r'\bb\.(is_writer|upgrade_to_writer|downgrade_to_reader|release)\(\)', r'BA_\1(&b)', 1, name='bucket lock method')
+    t = rw.sub(t, r'this->insert_new_node\( b\(\), ', 'STUB_insert_new_node(self, BA_bucket(&b), ', 0, name='callee stub (insert_new_node: proved in job grow.insert_new_node)')
+    t = rw.sub(t, r'this->is_valid\(', 'IS_VALID(', 1, name='callee')
+    t = rw.sub(t, r'this->check_mask_race\(\s*h, m\s*\)', 'CHECK_MASK_RACE(self, h, &m)', 1, name='ref-arg + ghost hook around the sliced check_mask_race')
+    t = rw.sub(t, r'result->try_acquire\(\s*(\w+)->mutex,\s*([^()]*?)\s*\)', r'ACC_try_acquire(result, \1, \2)', 1, name='element lock try_acquire')
+    t = rw.sub(t, r'for\(\s*tbb::detail::atomic_backoff backoff\(true\);;\s*\)', 'for (;;)', 1, 1, name='backoff-for')
+    t = rw.sub(t, r'\bbackoff\.bounded_pause\(\)', 'STUB_bounded_pause()', 1, 1, name='backoff (arbitrary answer)')
+    t = rw.sub(t, r'\byield\(\);', 'RG_NOP();', 0, name='yield -> RG_NOP')
+    t = rw.sub(t, r'this->enable_segment\(', 'STUB_enable_segment(self, ', 0, name='callee stub (enable_segment: proved in job grow.enable_segment)')
+    t = rw.sub(t, r'\bdelete_node\(', 'STUB_delete_node(self, ', 0, name='callee stub')
+    t = rw.asserts(t, 1)
+    t = raii_scope(rw, t, 'b', [(r'\breturn ([^;]*);', r'{ BA_dtor(&b); return \1; }'), (r'\bgoto restart;', r'{ BA_dtor(&b); CUT_restart(); }'),
+                                (r'\bgoto check_growth;', r'{ BA_dtor(&b); goto check_growth; }')], 'lookup')
+    rw.fired['retry jump (goto restart) -> inductive cut (assert entry-covered state; end path)'] = t.count('CUT_restart()')
+    t = rw.std(t)
+    t = tag_loops(t, 'lookup', rw)
+    out.append(t)
+    common.write(ctx, 'lookup.inc', '\n'.join(out) + '\n')
+    fired['lookup'] = rw.fired
+
+
+def flags_c(rw, sliced):
+    """rehash_req_flag / empty_rehashed_flag (namespace-scope constants -> #define, value taken from the source) and rehash_required()"""
+    out = []
+    for nm in ('rehash_req_flag', 'empty_rehashed_flag'):
+        st = cxx2c.slice_stmt(HM, r'static void\* const %s\b' % nm)
+        m = re.fullmatch(r'static void\* const %s = reinterpret_cast<void\*>\(std::size_t\((\d+)\)\);' % nm, st.text.strip())
+        if not m:
+            raise ExtractionBreak('concurrent_hash_map.h: %s is no longer reinterpret_cast<void*>(std::size_t(<literal>))' % nm)
+        rw.fired['namespace-scope constant -> #define (%s)' % nm] = 1
+        sliced.append('%s:%d %s' % (HM, st.line, nm))
+        out.append('#define %s ((void*)(size_t)%s)' % (nm, m.group(1)))
+    s = slice_block(HM, r'bool rehash_required\( hash_map_node_base<MutexType>\* node_ptr \)')
+    sliced.append('%s:%d rehash_required' % (HM, s.line))
+    t = rw.sub(s.text, r'bool rehash_required\( hash_map_node_base<MutexType>\* node_ptr \)', 'static bool rehash_required(node_base* node_ptr)', 1, 1, name='sig + bind-template(MutexType)')
+    t = rw.casts(t, 1)
+    out.append(t)
+    return '\n'.join(out) + '\n'
+
+
+def add_to_bucket_c(rw, sliced):
+    s = slice_block(HM, r'static void add_to_bucket\( bucket\* b, node_base\* n \)')
+    sliced.append('%s:%d hash_map_base::add_to_bucket' % (HM, s.line))
+    t = rw.sub(s.text, r'static void add_to_bucket\( bucket\* b, node_base\* n \)', 'static void add_to_bucket(hbucket* b, node_base* n)', 1, 1, name='sig')
+    t = bucket_list_ops(rw, t, 1)
+    t = node_next_ops(rw, t, 0)
+    t = rw.asserts(t, 0)
+    return rw.std(t)
+
+
+def bucket_list_ops(rw, t, minc):
+    """<bucket>->node_list.load(mo) -> BKT_LOAD(<bucket>), .store(v, mo) -> BKT_STORE(<bucket>, v): the list head is read / written under the bucket's lock"""
+    def st(m, a):
+        return 'BKT_STORE(%s, %s)' % (m.group('o'), a[0])
+    t = rw.call(t, r'(?P<o>\w+(?:\(\))?)->node_list\.store', st, 0, name='list head store -> BKT_STORE')
+    t = rw.sub(t, r'(\w+(?:\(\))?)->node_list\.load\(\s*std::memory_order_\w+\s*\)', r'BKT_LOAD(\1)', minc, name='list head load -> BKT_LOAD')
+    return t
+
+
+def node_next_ops(rw, t, minc):
+    """p->next = v; -> NODE_NEXT_SET(p, v); p->next -> NODE_NEXT(p); static_cast<node*>(p)->value().first / p->value().first -> NODE_KEY(p)  (per-index representation of the chain)"""
+    t = rw.sub(t, r'static_cast<node\*>\((\w+)\)->value\(\)\.first', r'NODE_KEY(\1)', 0, name='key accessor')
+    t = rw.sub(t, r'\b(\w+)->value\(\)\.first', r'NODE_KEY(\1)', 0, name='key accessor')
+    t = rw.sub(t, r'\b(\w+)->next = ([^;]*);', r'NODE_NEXT_SET(\1, \2);', 0, name='link store -> NODE_NEXT_SET')
+    t = rw.sub(t, r'\b(\w+)->next\b', r'NODE_NEXT(\1)', minc, name='link read -> NODE_NEXT')
+    return t
+
+
+def extract_chain(ctx, sliced, fired):
+    """search_bucket, add_to_bucket, rehash_bucket over a chain of any length (per-index representation)"""
+    rw = Rewriter('chain')
+    out = [flags_c(rw, sliced), add_to_bucket_c(rw, sliced)]
+    sig = r'node \*search_bucket\( const K &key, bucket \*b \) const'
+    s = slice_block(HM, sig)
+    sliced.append('%s:%d concurrent_hash_map::search_bucket' % (HM, s.line))
+    t = rw.sub(s.text, sig, 'static node *search_bucket(struct chm* self, key_type key, hbucket *b)', 1, 1, name='sig + bind-template(K)')
+    t = bucket_list_ops(rw, t, 1)
+    t = rw.sub(t, r'this->is_valid\(', 'IS_VALID(', 1, name='callee')
+    t = rw.sub(t, r'my_hash_compare\.equal\(', 'STUB_equal(', 1, name='callee stub (user equality)')
+    t = node_next_ops(rw, t, 1)
+    t = rw.casts(t, 0)
+    t = rw.asserts(t, 0)
+    t = rw.std(t)
+    t = tag_loops(t, 'search', rw)
+    out.append(t)
+    sig = r'void rehash_bucket\( bucket \*b_new, const hashcode_type hash \)'
+    s = slice_block(HM, sig)
+    sliced.append('%s:%d concurrent_hash_map::rehash_bucket' % (HM, s.line))
+    t = rw.sub(s.text, sig, 'static void rehash_bucket(struct chm* self, hbucket *b_new, const hashcode_type hash)', 1, 1, name='sig')
+    t = rw.sub(t, r'bucket_accessor b_old\( this, ([^;]*?) \);', r'struct bucket_accessor b_old; BA_ctor(&b_old, self, \1, false);', 1, 1, name='RAII ctor (default writer=false)')
+    t = bucket_list_ops(rw, t, 1)
+    t = rw.sub(t, r'\bb_old\(\)', 'BA_bucket(&b_old)', 1, name='operator()')
+    t = rw.sub(t, r'\bb_old\.(is_writer|upgrade_to_writer)\(\)', r'BA_\1(&b_old)', 1, name='bucket lock method')
+    t = rw.sub(t, r'my_hash_compare\.hash\(', 'STUB_hash(', 1, name='callee stub (user hash)')
+    t = node_next_ops(rw, t, 1)
+    t = rw.sub(t, r'this->is_valid\(', 'IS_VALID(', 1, name='callee')
+    t = rw.sub(t, r'this->add_to_bucket\(', 'add_to_bucket(', 0, name='method (static)')
+    t = rw.sub(t, r'tbb::detail::log2\(', 'tbb_log2(', 1, 1, name='ns-strip')
+    t = rw.sub(t, r'\brestart:', 'restart: RG_NOP();', 1, 1, name='label before a declaration')
+    t = rw.sub(t, r'\bgoto restart;', 'CUT_restart();', 0, name='retry jump (goto restart) -> inductive cut (assert entry-covered state; end path)')
+    t = rw.casts(t, 0)
+    t = rw.fcasts(t, TY)
+    t = rw.asserts(t, 0)
+    t = raii_scope(rw, t, 'b_old', [(r'\breturn\s*;', r'{ BA_dtor(&b_old); return; }')], 'rehash_bucket')
+    t = rw.std(t)
+    t = tag_loops(t, 'rehash', rw)
+    out.append(t)
+    common.write(ctx, 'chain.inc', '\n'.join(out) + '\n')
+    fired['chain'] = rw.fired
+
+
+ACQ_SIG = r'inline void acquire\( concurrent_hash_map \*base, const hashcode_type h, bool writer = false \)'
+
+
+def extract_acquire(ctx, sliced, fired):
+    """bucket_accessor::acquire: find the bucket, try-lock + lazy rehash if flagged, else lock in the requested mode"""
+    rw = Rewriter('acquire')
+    out = [flags_c(rw, sliced)]
+    s = slice_block(HM, ACQ_SIG, within=r'class bucket_accessor : public bucket::scoped_type')
+    sliced.append('%s:%d concurrent_hash_map::bucket_accessor::acquire' % (HM, s.line))
+    t = rw.sub(s.text, ACQ_SIG, 'static void BA_acquire(struct bucket_accessor* self, struct chm* base, const hashcode_type h, bool writer)', 1, 1, name='sig')
+    t = bucket_list_ops(rw, t, 1)
+    t = rw.fields(t, ['my_b'], 1)
+    t = rw.sub(t, r'base->get_bucket\(', 'STUB_get_bucket(base, ', 1, 1, name='callee stub (get_bucket: proved in job bucket.address)')
+    t = rw.sub(t, r'bucket::scoped_type::(try_acquire|acquire)\(\s*([\w>-]+)->mutex,\s*([^()]*?)\s*\)', r'LOCK_\1(self, \2, \3)', 1, name='base-class scoped_lock method on the bucket mutex')
+    t = rw.sub(t, r'base->rehash_bucket\(', 'STUB_rehash_bucket(base, ', 0, name='callee stub (rehash_bucket: proved in job rehash.bucket)')
+    t = rw.asserts(t, 0)
+    t = rw.std(t)
+    out.append(t)
+    common.write(ctx, 'acquire.inc', '\n'.join(out) + '\n')
+    fired['acquire'] = rw.fired
+
+
+def extract_grow(ctx, sliced, fired):
+    """insert_new_node (size count, link, claim of the next segment) and enable_segment / init_buckets (allocation, table entries, mask publication)"""
+    rw = Rewriter('grow')
+    if not re.search(r'static constexpr size_type embedded_buckets = 1 << embedded_block;', load(HM)):
+        raise ExtractionBreak('concurrent_hash_map.h: embedded_buckets changed')
+    out = [flags_c(rw, sliced), '#define embedded_buckets ((size_type)(1 << embedded_block))', add_to_bucket_c(rw, sliced)]
+    sig = r'segment_index_type insert_new_node\( bucket \*b, node_base \*n, hashcode_type mask \)'
+    s = slice_block(HM, sig)
+    sliced.append('%s:%d hash_map_base::insert_new_node' % (HM, s.line))
+    t = rw.sub(s.text, sig, 'static segment_index_type insert_new_node(struct chm* self, hbucket *b, node_base *n, hashcode_type mask)', 1, 1, name='sig')
+    t = rw.atomics(t, ['my_size', 'my_table'], 1)
+    t = rw.fields(t, ['my_size', 'my_table'], 1)
+    t = rw.sub(t, r'\bstatic const segment_ptr_type is_allocating\b', 'const segment_ptr_type is_allocating', 1, 1, name='function-scope static const -> const')
+    t = rw.sub(t, r'tbb::detail::log2\(', 'tbb_log2(', 1, name='ns-strip')
+    t = rw.sub(t, r'(?<![\w.>])is_valid\(', 'IS_VALID(', 0, name='callee')
+    t = rw.fcasts(t, TY + ['segment_ptr_type'])
+    t = rw.asserts(t, 0)
+    t = rw.std(t)
+    t = rw.number_sites(t, 'inn', by_kind=True)
+    out.append(t)
+    sig = r'void init_buckets\( segment_ptr_type ptr, size_type sz, bool is_initial \)'
+    s = slice_block(HM, sig)
+    sliced.append('%s:%d hash_map_base::init_buckets' % (HM, s.line))
+    t = rw.sub(s.text, sig, 'static void init_buckets(struct chm* self, segment_ptr_type ptr, size_type sz, bool is_initial)', 1, 1, name='sig')
+    t = rw.sub(t, r'\binit_buckets_impl\(ptr, sz\);', 'STUB_init_buckets_impl(self, ptr, sz, false, NULL);', 0, name='variadic construct-all helper, no constructor argument -> stub')
+    t = rw.sub(t, r'\binit_buckets_impl\(ptr, sz, ([^;]*)\);', r'STUB_init_buckets_impl(self, ptr, sz, true, \1);', 0, name='variadic construct-all helper, one constructor argument -> stub')
+    t = rw.casts(t, 0)
+    t = rw.std(t)
+    out.append(t)
+    sig = r'void enable_segment\( segment_index_type k, bool is_initial = false \)'
+    s = slice_block(HM, sig)
+    sliced.append('%s:%d hash_map_base::enable_segment' % (HM, s.line))
+    t = rw.sub(s.text, sig, 'static void enable_segment(struct chm* self, segment_index_type k, bool is_initial)', 1, 1, name='sig')
+    t = rw.sub(t, r'(?s)try_call\( \[&\] \{\s*ptr = bucket_allocator_traits::allocate\(my_allocator, ([^;]*)\);\s*\} \)\.on_exception\( \[&\] \{\s*my_table\[k\]\.store\(nullptr, std::memory_order_relaxed\);\s*\}\);',
+               r'ptr = STUB_allocate_buckets(self, \1);', 2, 2, name='try_call(allocate).on_exception(reset entry) -> allocation that succeeds (exception path dropped)')
+    t = rw.atomics(t, ['my_mask', 'my_table'], 1)
+    t = rw.fields(t, ['my_mask', 'my_table'], 1)
+    t = rw.sub(t, r'(?<![\w.>])is_valid\(', 'IS_VALID(', 0, name='callee')
+    t = rw.sub(t, r'(?<![\w.>])init_buckets\(', 'init_buckets(self, ', 0, name='method')
+    t = rw.asserts(t, 0)
+    t = rw.std(t)
+    t = rw.number_sites(t, 'ens', by_kind=True)
+    t = tag_loops(t, 'ens', rw)
+    out.append(t)
+    common.write(ctx, 'grow.inc', '\n'.join(out) + '\n')
+    fired['grow'] = rw.fired
 
 
 def extract(ctx):
@@ -48,20 +286,20 @@ def extract(ctx):
     t = rw.sub(t, r'for\( \+\+m_old; !\(h & m_old\); m_old <<= 1 \)\s*;', 'for( ++m_old; !(h & m_old); m_old <<= 1 ) { RG_NOP(); }', 1, 1, name='empty-body braces')
     t = tag_loops(t, 'crc', rw, expect=1)
     out.append(t)
-    # parent-mask computation of rehash_bucket: sliced statements
+    # parent-mask computation of rehash_bucket: the function's prefix up to the label `restart:`; the parent's bucket_accessor becomes an output
     s = slice_block(HM, r'void rehash_bucket\( bucket \*b_new, const hashcode_type hash \)')
-    sliced.append('%s:%d concurrent_hash_map::rehash_bucket (mask statements)' % (HM, s.line))
-    m1 = re.search(r'hashcode_type mask = \(hashcode_type\(1\) << tbb::detail::log2\(hash\)\) - 1;', s.text)
-    m2 = re.search(r'bucket_accessor b_old\( this, hash & mask \);', s.text)
-    m3 = re.search(r'mask = \(mask<<1\) \| 1;', s.text)
-    m4 = re.search(r'__TBB_ASSERT\( \(mask&\(mask\+1\)\)==0 && \(hash & mask\) == hash, nullptr \);', s.text)
-    m0 = re.search(r'__TBB_ASSERT\( hash > 1, "The lowermost buckets can\'t be rehashed" \);', s.text)
-    if not (m0 and m1 and m2 and m3 and m4 and m0.start() < m1.start() < m2.start() < m3.start() < m4.start()):
-        raise ExtractionBreak('rehash_bucket: parent-mask statements changed')
-    t = 'static void rehash_bucket_masks(const hashcode_type hash, hashcode_type* parent_out, hashcode_type* mask_out) {\n    %s\n    %s\n    *parent_out = hash & mask; /* bucket_accessor b_old( this, hash & mask ) */\n    %s\n    %s\n    *mask_out = mask;\n}' % (m0.group(0), m1.group(0), m3.group(0), m4.group(0))
-    t = rw.sub(t, r'tbb::detail::log2\(', 'tbb_log2(', 1, 1, name='ns-strip')
+    sliced.append('%s:%d concurrent_hash_map::rehash_bucket (prefix: parent and mask computation)' % (HM, s.line))
+    cut = re.search(r'\brestart\s*:', cxx2c.mask(s.text))
+    if not cut:
+        raise ExtractionBreak('rehash_bucket: label restart not found')
+    t = s.text[:cut.start()]
+    t = rw.sub(t, r'void rehash_bucket\( bucket \*b_new, const hashcode_type hash \)', 'static void rehash_bucket_masks(const hashcode_type hash, hashcode_type* parent_out, hashcode_type* mask_out)', 1, 1, name='sig (prefix of rehash_bucket; outputs: parent index, mask)')
+    t = rw.sub(t, r'b_new->node_list\.store\([^;]*;', 'RG_NOP();', 0, name='marking store (obligation of job rehash.bucket) -> RG_NOP')
+    t = rw.sub(t, r'bucket_accessor b_old\( this, ([^;]*?) \);', r'*parent_out = \1; /* bucket_accessor b_old( this, ... ) */', 1, 1, name='parent bucket_accessor -> output')
+    t = t + '\n    *mask_out = mask;\n}'
+    t = rw.sub(t, r'tbb::detail::log2\(', 'tbb_log2(', 1, name='ns-strip')
     t = rw.fcasts(t, TY)
-    t = rw.asserts(t, 2)
+    t = rw.asserts(t, 0)
     t = rw.std(t)
     out.append(t)
     common.write(ctx, 'hmap.inc', '\n'.join(out) + '\n')
@@ -154,6 +392,10 @@ def extract(ctx):
 
 def build(ctx):
     sliced, fired = extract(ctx)
+    extract_lookup(ctx, sliced, fired)
+    extract_chain(ctx, sliced, fired)
+    extract_acquire(ctx, sliced, fired)
+    extract_grow(ctx, sliced, fired)
     C = os.path.join(HERE, 'c10.c')
     jobs = [
         Job('seg.bijection', C, 'h_seg', route='LF', target='hash_map_base::segment_index_of/segment_base/segment_size', source=HM),
@@ -162,15 +404,41 @@ def build(ctx):
         Job('erase.by_key', C, 'h_erase', route='RG', defines=['ERASE'], loops=True, nloops=1, unwind=3, target='concurrent_hash_map::internal_erase + check_mask_race', source=HM, timeout=600),
         Job('erase.by_accessor', C, 'h_exclude', route='RG', defines=['ERASE'], loops=True, nloops=1, unwind=3, target='concurrent_hash_map::exclude', source=HM, timeout=600),
         Job('rehash.parent', C, 'h_parent', route='LF', target='concurrent_hash_map::rehash_bucket parent/mask computation', source=HM),
+        Job('search.bucket', C, 'h_search', route='LC', defines=['CHAIN'], loops=True, nloops=1, target='concurrent_hash_map::search_bucket (chain of any length)', source=HM, timeout=300),
+        Job('rehash.bucket', C, 'h_rehash', route='LC', defines=['CHAIN'], loops=True, nloops=1, target='concurrent_hash_map::rehash_bucket + hash_map_base::add_to_bucket (parent chain of any length)', source=HM, timeout=600),
+        Job('bucket.acquire', C, 'h_acquire', route='RG', defines=['ACQ'], target='concurrent_hash_map::bucket_accessor::acquire (flag / lock protocol of lazy rehashing)', source=HM),
+        Job('grow.insert_new_node', C, 'h_insert_new_node', route='RG', defines=['GROW'], unwind=9, target='hash_map_base::insert_new_node + add_to_bucket (size count, link, claim of the next segment)', source=HM),
+        Job('grow.enable_segment', C, 'h_enable_segment', route='LW', defines=['GROW'], unwind=9, target='hash_map_base::enable_segment + init_buckets (allocation, table entries, mask publication)', source=HM),
+        Job('lookup.insert', C, 'h_lookup', route='RG', defines=['LOOKUP', 'OPINSERT=1'], loops=True, nloops=2, unwind=3, target='concurrent_hash_map::lookup<true> (insert / emplace) + check_mask_race', source=HM, timeout=600),
+        Job('lookup.find', C, 'h_lookup', route='RG', defines=['LOOKUP', 'OPINSERT=0'], loops=True, nloops=2, unwind=3, target='concurrent_hash_map::lookup<false> (find / count) + check_mask_race', source=HM, timeout=600),
     ]
     return {
         'jobs': jobs, 'sliced': sliced, 'fired': fired,
-        'trusted': ['__builtin_clzl as modelled by CBMC', 'rehash_required / bucket contents: stub recording which bucket is examined', 'element and bucket locks are spin_rw_mutex (C08): a writer lock is granted only when no reader or writer holds it; upgrade_to_writer returning false means the lock was released and re-acquired',
-                    'bucket_accessor constructor / rehash_bucket: stub that yields the bucket locked in the requested mode or as writer (after a rehash), with an arbitrary list', 'user hash / equality: arbitrary pure functions',
-                    'retry jumps (goto restart / goto search / continue) are cut inductively: the state at the jump is asserted to lie in the set the entry path explores, then the path ends'],
-        'drops': ['std::atomic loads -> ATOMIC_LOAD', '__TBB_ASSERT -> proof obligation'],
-        'not_decided': ['interleavings of lookup / insert (lookup<insert>, insert_new_node)', 'accessor lifetime on the lookup side (the accessor is attached under the bucket lock)', 'that the bucket locked after a mask race without collision still is the key\'s bucket (rehash.collision gives the arithmetic only)', 'lazy rehash under concurrent lookups (rehash_bucket list surgery, bucket_accessor)', 'enable_segment / insert_new_node growth protocol'],
-        'assumptions': ['masks passed to check_rehashing_collision are of the form 2^a-1 with m_old < m (they are values of my_mask, which only grows)'],
+        'trusted': ['__builtin_clzl as modelled by CBMC', 'rehash_required / bucket contents in rehash.collision: stub recording which bucket is examined',
+                    'element and bucket locks are spin_rw_mutex (C08): a writer lock is granted only when no reader or writer holds it; upgrade_to_writer / downgrade_to_reader returning false means the lock was released and re-acquired',
+                    'erase.*, lookup.*: bucket_accessor constructor is a stub that yields the bucket locked in the requested mode or as writer (after a rehash) with an arbitrary chain (its real code: jobs bucket.acquire, rehash.bucket)',
+                    'user hash / equality: arbitrary pure functions (per-node arrays of arbitrary values in the chain jobs)',
+                    'retry jumps (goto restart / goto search / continue in erase, goto restart in lookup and rehash_bucket) are cut inductively: the state at the jump is asserted to lie in the set of states the harness starts from (which is closed under the jump), then the path ends',
+                    'lookup.*: search_bucket, insert_new_node, enable_segment, delete_node, allocate_node are stubs with the contracts proved in search.bucket / grow.* (delete / allocate: ownership bookkeeping only); '
+                    'rely: a bucket chain changes only under the bucket\'s writer lock; an element lock is taken only by threads holding the bucket lock of its chain or already holding the element (so try_acquire on a node linked during the current writer tenure succeeds)',
+                    'bucket.acquire: rely on the other threads running the same protocol: the flag is only cleared, only under the bucket\'s writer lock; a still flagged bucket is locked only via a successful try_acquire(write) by its rehasher, who clears the flag before releasing; '
+                    'get_bucket and rehash_bucket are stubs (proved in bucket.address / rehash.bucket)',
+                    'rehash.bucket: the parent bucket_accessor (recursive acquire) is a stub returning the parent locked as reader or writer; the caller holds the new bucket\'s writer lock (obligation of bucket.acquire)',
+                    'grow.insert_new_node: rely on the table entry of the next segment: NULL -> allocating -> enabled only forwards, a claimed entry is touched by its claimer only; my_size is arbitrary between steps',
+                    'grow.enable_segment: the allocator returns a fresh block of the requested number of buckets; init_buckets_impl (variadic construct loop) is a stub recording (pointer, count, constructor argument); no other thread writes the table or the mask between the claim and the publication (the next claim needs the new mask)'],
+        'drops': ['std::atomic loads -> ATOMIC_LOAD', '__TBB_ASSERT -> proof obligation', 'template<bool OpInsert> -> run-time constant parameter (one job per value)', 'tbb::detail::atomic_backoff -> arbitrary answer of bounded_pause; yield() -> no-op',
+                  'RAII bucket_accessor / scoped_lock -> explicit constructor / destructor calls at every scope exit', 'enable_segment: try_call(...).on_exception(...) -> plain allocation (the exception path that resets the table entry is dropped)',
+                  'chain jobs: p->next, p->value().first and bucket->node_list accesses -> NODE_NEXT / NODE_NEXT_SET / NODE_KEY / BKT_LOAD / BKT_STORE accessor macros (per-index representation of a chain)',
+                  'namespace-scope flag constants -> #define with the literal taken from the source'],
+        'not_decided': ['end-to-end linearizability of whole histories: the per-function contracts (one bucket, one tenure, one key) are composed by the rely/guarantee argument written in c10.c, not by a checker over histories',
+                        'that the bucket locked after a mask race without collision still is the key\'s bucket: lookup / erase are proved to re-check under the lock and restart on a collision, rehash.collision gives the arithmetic, bucket.acquire / rehash.bucket the flag protocol; the argument joining them is informal',
+                        'recursion depth of bucket_accessor::acquire -> rehash_bucket -> acquire (parent index strictly smaller: rehash.parent; no deadlock claim)',
+                        'the shape of the two chains after rehash_bucket is stated through per-store obligations (each store removes exactly the visited node / pushes it in front) plus the loop-carried count for an arbitrary node, not as a reachability predicate',
+                        'exception paths (allocation failure in enable_segment, throwing hash / equality / constructors)', 'iterators, range, rehash(), clear(), swap, copy / move (documented as not concurrency-safe)', 'internal_equal_range / count under concurrent growth',
+                        'memory ordering (acquire / release on my_mask, my_table, node_list) - SC assumed', 'termination of the retry loops and of the element-lock back-off'],
+        'assumptions': ['masks passed to check_rehashing_collision are of the form 2^a-1 with m_old < m (they are values of my_mask, which only grows)', 'sequentially consistent atomics',
+                        'chains of at most 2^12 nodes in search.bucket / rehash.bucket (symbolic length); nodes of a chain are pairwise distinct and the chain is NULL-terminated (per-index representation)',
+                        'segments k <= 40 in grow.enable_segment (CBMC object-size bound); masks below 2^62 in grow.insert_new_node', 'allocation succeeds (no exception path)'],
     }
 
 
